@@ -43,6 +43,27 @@ std::vector<Triangle> partTrueTris(const NiSkinPartition& sp, const NiSkinPartit
 	if (!p.trueTriangles.empty())
 		return p.trueTriangles;
 	std::vector<Triangle> out;
+	if (p.triangles.empty() && p.numStrips > 0) {
+		// faces kept as strips (Oblivion / Fallout 3 files): expanded here, independently of the library
+		for (auto& st : p.strips)
+			for (size_t i = 0; i + 2 < st.size(); i++) {
+				uint16_t a = st[i], b = st[i + 1], c = st[i + 2];
+				if (a == b || b == c || a == c)
+					continue;
+				if (i & 1)
+					std::swap(b, c);
+				if (sp.bMappedIndices) {
+					if (a >= p.vertexMap.size() || b >= p.vertexMap.size() || c >= p.vertexMap.size()) {
+						validMapped = false;
+						continue;
+					}
+					out.emplace_back(p.vertexMap[a], p.vertexMap[b], p.vertexMap[c]);
+				}
+				else
+					out.emplace_back(a, b, c);
+			}
+		return out;
+	}
 	if (sp.bMappedIndices) {
 		for (auto& t : p.triangles) {
 			if (t.p1 >= p.vertexMap.size() || t.p2 >= p.vertexMap.size() || t.p3 >= p.vertexMap.size()) {
